@@ -6,7 +6,7 @@ use super::{
 use std::{iter, ops::Deref};
 use uplc::{
     PlutusData,
-    ast::{Constant, Data as UplcData},
+    ast::Constant,
 };
 
 #[derive(Debug, PartialEq, Eq, Clone, serde::Serialize, serde::Deserialize)]
@@ -341,10 +341,13 @@ fn expect_data_map(term: &Constant) -> Result<Vec<(Constant, Constant)>, Error> 
 }
 
 fn expect_data_constr(term: &Constant, index: usize) -> Result<Vec<Constant>, Error> {
+    // A constructor index has two encodings: a compact tag (121..=127, 1280..=1400) and the
+    // general form (tag 102 with an explicit index). Both designate the same constructor, as
+    // `unConstrData` sees it on-chain, so compare indices rather than encodings.
     if let Constant::Data(PlutusData::Constr(constr)) = term
-        && let PlutusData::Constr(expected) = UplcData::constr(index as u64, vec![])
-        && expected.tag == constr.tag
-        && expected.any_constructor == constr.any_constructor
+        && let Some(actual) =
+            uplc::machine::runtime::convert_tag_to_constr(constr.tag).or(constr.any_constructor)
+        && actual == index as u64
     {
         return Ok(constr
             .fields
